@@ -9,6 +9,8 @@ import (
 	"io"
 	"os"
 	"path/filepath"
+	"runtime/debug"
+	"runtime/metrics"
 	"sort"
 	"strings"
 	"time"
@@ -121,7 +123,26 @@ type node struct {
 	handler fasthttp.RequestHandler
 	boots   int
 	closed  bool
+	// heap bytes allocated by the process while the last post() was inside
+	// the handler (one task runs at a time, so this is the request plus
+	// whatever background tasks were scheduled meanwhile)
+	lastAlloc uint64
 }
+
+var allocSample = []metrics.Sample{{Name: "/gc/heap/allocs:bytes"}}
+
+func heapAllocated() uint64 {
+	metrics.Read(allocSample)
+	if allocSample[0].Value.Kind() != metrics.KindUint64 {
+		return 0
+	}
+	return allocSample[0].Value.Uint64()
+}
+
+// allocBlowup is the amount of heap one request of at most a few MiB may not
+// make the process allocate: three orders of magnitude above the largest body
+// any harness sends, and enough to get a server in a 1-2 GiB container killed.
+const allocBlowup = 1 << 30
 
 var quietLogger = zerolog.New(io.Discard).Level(zerolog.Disabled)
 
@@ -202,7 +223,14 @@ func (n *node) post(path string, headers map[string]string, body []byte) (int, s
 	own := make([]byte, len(body))
 	copy(own, body)
 	ctx.Request.SetBodyRaw(own)
+	a0 := heapAllocated()
 	n.handler(&ctx)
+	n.lastAlloc = heapAllocated() - a0
+	if n.lastAlloc >= allocBlowup {
+		// give the pages back at once: 14 workers each sitting on a
+		// multi-GiB garbage span starve the machine
+		debug.FreeOSMemory()
+	}
 	st, rb := ctx.Response.StatusCode(), string(ctx.Response.Body())
 	// fasthttp reuses the request buffer for the next request on the
 	// connection: nothing may alias the body after the handler returned.
